@@ -10,6 +10,7 @@ import (
 
 	"github.com/innovationb1ue/RedisGO/config"
 	"github.com/innovationb1ue/RedisGO/server"
+	"go.etcd.io/etcd/raft/v3"
 
 	rd "verifsim/respdec"
 )
@@ -44,12 +45,16 @@ func (s *Sim) converged() bool {
 			return false
 		}
 	}
+	leaderServing := false
 	for _, ns := range s.serving() {
-		if uint64(ns.id) == lead && ns.view.commit != applied {
-			return false
+		if uint64(ns.id) == lead {
+			if ns.view.commit != applied || ns.view.state != raft.StateLeader {
+				return false
+			}
+			leaderServing = true
 		}
 	}
-	return !first
+	return !first && leaderServing
 }
 
 func (s *Sim) statusLine() string {
@@ -251,13 +256,14 @@ func (s *Sim) runFinale() {
 			}
 		}
 	}
-	// bounded liveness: every serving node answers a fresh command
+	// bounded liveness: every serving node answers a fresh command (the client
+	// retries on a new connection whenever an attempt times out)
 	for _, ns := range s.serving() {
 		c := s.auxClient(fmt.Sprintf("probe%d", ns.id))
-		op := s.issue(c, bs("exists", "__verif_probe__"), ns.id, 0, false, true)
-		if !s.settle(func() bool { return op.Done || op.Abandoned != "" }, budget) || !op.Done {
+		if !s.ask(c, bs("exists", "__verif_probe__"), ns.id, 0, false, true, budget) {
 			if len(s.res.Panics) == 0 && s.res.Harness == "" {
-				s.res.Liveness = fmt.Sprintf("node %d did not answer a fresh command within %v of simulated time after the last fault was repaired: %s", ns.id, budget, s.statusLine())
+				s.res.Liveness = fmt.Sprintf("node %d did not answer a fresh command (retried every %v) within %v of simulated time after the last fault was repaired: %s",
+					ns.id, s.attemptTimeout(), budget, s.statusLine())
 			}
 			return
 		}
@@ -268,8 +274,7 @@ func (s *Sim) runFinale() {
 		for _, ns := range s.serving() {
 			c := s.auxClient(fmt.Sprintf("reader%d", ns.id))
 			for i, k := range keys {
-				op := s.issue(c, readCmd(k, typ[k]), ns.id, i, true, false)
-				if !s.settle(func() bool { return op.Done || op.Abandoned != "" }, budget) || !op.Done {
+				if !s.ask(c, readCmd(k, typ[k]), ns.id, i, true, false, budget) {
 					if len(s.res.Panics) == 0 && s.res.Harness == "" {
 						s.res.Liveness = fmt.Sprintf("node %d did not answer the read-back of %q within %v: %s", ns.id, k, budget, s.statusLine())
 					}
@@ -352,4 +357,52 @@ func (s *Sim) runReference() {
 	s.res.RefSkipped = len(prog.Cmds) - len(kept)
 	prog.Cmds = kept
 	s.res.RefDump = mgr.DBs[0].VerifDump(false)
+}
+
+func (s *Sim) attemptTimeout() time.Duration {
+	t := s.k.OpTimeoutTicks
+	if t > 50 {
+		t = 50
+	}
+	return time.Duration(t) * tickEvery
+}
+
+// ask issues a command on behalf of the harness and retries it on a fresh
+// connection whenever an attempt is not answered in time, until the budget of
+// simulated time is used.  Every attempt is part of the history.
+func (s *Sim) ask(c *clientState, args []B, node int, idx int, final, probe bool, budget time.Duration) bool {
+	deadline := time.Now().Add(budget)
+	for attempt := 0; ; attempt++ {
+		// wait until the node knows a leader (replay-exact rule for proposals)
+		ns := s.nodes[node-1]
+		if !s.settle(func() bool { return ns.view.ok && ns.view.lead != 0 }, time.Until(deadline)) {
+			return false
+		}
+		op := s.issue(c, args, node, idx, final, probe)
+		left := time.Until(deadline)
+		if at := s.attemptTimeout(); at < left {
+			left = at
+		}
+		s.settle(func() bool { return op.Done || op.Abandoned != "" }, left)
+		if op.Done {
+			return true
+		}
+		if len(s.res.Panics) > 0 || s.res.Harness != "" {
+			return false
+		}
+		if c.cur == op {
+			op.Abandoned = "timeout"
+			s.res.Abandoned++
+			s.trace("c%d timeout#%d", c.idx, op.Idx)
+			c.cur = nil
+			if c.conn != nil {
+				c.conn.clientClose()
+				c.conn = nil
+			}
+		}
+		if !time.Now().Before(deadline) {
+			return false
+		}
+		s.probe("finale-retry")
+	}
 }
